@@ -1186,46 +1186,81 @@ Section RTS.
                           a_query_source := a_query_source a ++ snd p |}))) ;;
     consume_whitespace X F ;;; ret a'.
 
-  (* what follows an item and its gap: the end of the file or the next item *)
-  Definition item_follow (ends_w : bool) (g : gap) (r : list N) : Prop :=
-    expr_follow X ends_w g r /\ no_comma_start r /\ no_eq_start r.
+  (* what follows an item and its gap: the end of the file or the next item; after a bare global
+     (name without quantifier and default) no quantifier character *)
+  Definition item_follow (ends_w bare : bool) (g : gap) (r : list N) : Prop :=
+    expr_follow X ends_w g r /\ no_comma_start r /\ no_eq_start r /\
+    (bare = true -> no_quant_start (render_gap g ++ r)).
 
-  Lemma quant_text_props L q : exists c, quant_text L q = [c] /\ is_ident X c = false /\
-    (q <> QZero ->
-     ((c =? 63) = true /\ q = QOpt) \/ ((c =? 63) = false /\ (c =? 42) = true /\ q = QStar) \/
-     ((c =? 63) = false /\ (c =? 42) = false /\ (c =? 43) = true /\ q = QPlus) \/
-     ((c =? 63) = false /\ (c =? 42) = false /\ (c =? 43) = false /\ is_whitespace X c = true /\ q = QOne)).
+  Lemma ws_not_quant c : is_whitespace X c = true -> quant_char c = false.
   Proof.
-    unfold quant_text. destruct q; try (eexists; split; [reflexivity|]; split; [reflexivity|]; intros _; tauto).
-    - destruct (l_zeros L [] mod 4)%nat as [|[|[|m]]]; eexists; (split; [reflexivity|]); (split; [reflexivity|]); intros H; congruence.
-    - destruct (l_zeros L [] mod 4)%nat as [|[|[|m]]]; eexists; (split; [reflexivity|]); (split; [reflexivity|]); intros _;
-        right; right; right; repeat split; reflexivity.
+    intros H. unfold quant_char.
+    destruct (N.eqb_spec c 63) as [->|_]; [vm_compute in H; discriminate|].
+    destruct (N.eqb_spec c 42) as [->|_]; [vm_compute in H; discriminate|].
+    destruct (N.eqb_spec c 43) as [->|_]; [vm_compute in H; discriminate|]. reflexivity.
+  Qed.
+  Lemma gap_no_quant' g r : WfGap X g -> (g = [] -> no_quant_start r) -> no_quant_start (render_gap g ++ r).
+  Proof.
+    intros Hg Hr. destruct g as [|i g]; [apply Hr; reflexivity|]. inversion Hg as [|? ? Hi _]; subst.
+    destruct i as [c|b]; cbn [render_gap map concat render_gap_item app no_quant_start].
+    - apply ws_not_quant. exact Hi.
+    - reflexivity.
+  Qed.
+  Lemma gap_no_quant g r : WfGap X g -> no_quant_start r -> no_quant_start (render_gap g ++ r).
+  Proof. intros Hg Hr. apply gap_no_quant'; [exact Hg | intros _; exact Hr]. Qed.
+  Lemma sep_no_quant b g r : WfGap X g -> (b = false -> no_quant_start r) ->
+    no_quant_start (render_gap (sep true b g) ++ r).
+  Proof.
+    intros Hg Hr. unfold sep. cbn [andb]. destruct b.
+    - destruct g as [|i g]; [reflexivity|]. apply gap_no_quant'; [exact Hg | discriminate].
+    - apply gap_no_quant; [exact Hg | apply Hr; reflexivity].
+  Qed.
+
+  Lemma parse_quantifier_ok q s rest : q <> QZero -> (q = QOne -> no_quant_start rest) ->
+    p_rest s = quant_text q ++ rest -> parse_quantifier s = ROk q (st_after s (quant_text q) rest).
+  Proof.
+    intros Hq Hr E. unfold parse_quantifier. rewrite E.
+    destruct q; try congruence; cbn [quant_text app] in *;
+      try (cbn [quantifier_of N.eqb Pos.eqb]; unfold bind; rewrite (skip_unwrap_eq 3 s _ rest E), advance_st_after; reflexivity).
+    rewrite (st_after_nil' s rest E).
+    destruct rest as [|c rest']; [reflexivity|]. specialize (Hr eq_refl). cbn [no_quant_start] in Hr.
+    unfold quant_char in Hr. apply orb_false_iff in Hr. destruct Hr as [Hr H3]. apply orb_false_iff in Hr. destruct Hr as [H1 H2].
+    unfold quantifier_of. rewrite H1, H2, H3. reflexivity.
+  Qed.
+  Lemma quant_text_no_ident q rest : q <> QZero -> (q = QOne -> no_ident_start X rest) ->
+    no_ident_start X (quant_text q ++ rest).
+  Proof.
+    intros Hq Hr. destruct q; try congruence; cbn [quant_text app no_ident_start]; try reflexivity. apply Hr; reflexivity.
   Qed.
 
   Lemma parse_global_ok g0 L s g r : WfIdent X (gl_name g0) -> gl_quant g0 <> QZero -> WfLayout X L ->
-    item_follow false g r ->
-    p_rest s = gl_name g0 ++ quant_text L (gl_quant g0)
+    item_follow (global_bare g0) (global_bare g0) g r ->
+    p_rest s = gl_name g0 ++ quant_text (gl_quant g0)
            ++ match gl_default g0 with None => [] | Some d => G L 1 ++ [61] ++ G L 2 ++ render_string (l_esc L []) d end
            ++ render_gap g ++ r ->
     (len s < F)%nat ->
     (x <- parse_global X F ;; consume_whitespace X F ;;; ret x) s =
       ROk {| gl_name := gl_name g0; gl_quant := gl_quant g0; gl_default := gl_default g0; gl_loc := p_loc s |}
-          (st_after s (gl_name g0 ++ quant_text L (gl_quant g0)
+          (st_after s (gl_name g0 ++ quant_text (gl_quant g0)
                         ++ match gl_default g0 with None => [] | Some d => G L 1 ++ [61] ++ G L 2 ++ render_string (l_esc L []) d end
                         ++ render_gap g) r).
   Proof.
-    intros Hn Hq HL [[Hg [Hr [Hd _]]] [Hc He]] E HF.
-    destruct (quant_text_props L (gl_quant g0)) as [c [Eq [Hci Hcq]]]. specialize (Hcq Hq). rewrite Eq in *.
+    intros Hn Hq HL [[Hg [Hr [Hd Hw]]] [Hc [He Hb]]] E HF.
     set (tail := match gl_default g0 with None => [] | Some d => G L 1 ++ [61] ++ G L 2 ++ render_string (l_esc L []) d end) in *.
-    unfold parse_global. start E. unfold bind at 1. step_loc. step_name E HF.
-    (* the quantifier character *)
-    unfold bind at 1. unfold parse_quantifier. cbn [p_rest st_after app].
-    step_skip.
-    assert (Hquant : forall (K : quant -> M global) s',
-              (if c =? 63 then ret QOpt else if c =? 42 then ret QStar else if c =? 43 then ret QPlus
-               else if negb (is_whitespace X c) then (l <- get_loc ;; fail (PEExpectedQuantifier l)) else ret QOne) s' = ROk (gl_quant g0) s').
-    { intros K s'. destruct Hcq as [[H1 ->]|[[H1 [H2 ->]]|[[H1 [H2 [H3 ->]]]|[H1 [H2 [H3 [H4 ->]]]]]]]; rewrite ?H1, ?H2, ?H3, ?H4; reflexivity. }
-    rewrite (Hquant (fun _ => ret g0)). clear Hquant.
+    (* what follows the name and the quantifier character continues neither *)
+    assert (Htail : gl_quant g0 = QOne -> no_ident_start X (tail ++ render_gap g ++ r) /\ no_quant_start (tail ++ render_gap g ++ r)).
+    { intros Hone. subst tail. unfold global_bare in Hw, Hb. rewrite Hone in Hw, Hb. destruct (gl_default g0) as [d|].
+      - unfold G. repeat rewrite <- app_assoc.
+        split; [apply (gap_follow X Sane); [wfgap | reflexivity] | apply gap_no_quant; [wfgap | reflexivity]].
+      - split; [apply Hw; reflexivity | apply Hb; reflexivity]. }
+    unfold parse_global. start E. unfold bind at 1. step_loc.
+    unfold bind at 1.
+    rewrite (parse_name_ok X F w_global (gl_name g0) _ (quant_text (gl_quant g0) ++ tail ++ render_gap g ++ r) Hn)
+      by (first [ apply quant_text_no_ident; [exact Hq | intros Hone; apply (Htail Hone)] | reflexivity | lensolve E HF ]).
+    rewrite st_after_app.
+    unfold bind at 1.
+    rewrite (parse_quantifier_ok (gl_quant g0) _ (tail ++ render_gap g ++ r) Hq) by (first [ intros Hone; apply (Htail Hone) | reflexivity ]).
+    rewrite st_after_app. clear Htail.
     subst tail. destruct (gl_default g0) as [d|].
     - normE E. normG. step_ws E HF. unfold bind at 1. unfold if_ok at 1.
       match goal with |- context [consume_token t_eq (st_after ?s1 ?a1 ?r1)] =>
@@ -1278,7 +1313,7 @@ Section RTS.
 
   (* the first characters of an item decide the branch of the dispatch *)
   Lemma item_step_ok it L a s g r : WfItem X tbl it -> WfLayout X L ->
-    item_follow (item_ends_word L it) g r ->
+    item_follow (item_ends_word L it) (item_bare it) g r ->
     match it with
     | IStanza q z => exists n, x_query X (p_off s) (p_off s + bytes q) = Some (QOk n (Some (st_full_stanza_idx z))) /\ (1 <? n) = false
     | _ => True
@@ -1288,8 +1323,8 @@ Section RTS.
       ROk (acc_add a (item_loc tbl L (p_loc s) (length (p_pats s)) it))
           (add_pats (item_pats tbl it) (st_after s (item_text tbl L it ++ render_gap g) r)).
   Proof.
-    intros Hwf HL Hfol Hq E HF. pose proof Hfol as [[Hg [Hr [Hd Hw]]] [Hc He]].
-    unfold item_step. destruct it as [g0|n|h|q z]; cbn [item_text item_loc item_pats item_ends_word acc_add WfItem] in *.
+    intros Hwf HL Hfol Hq E HF. pose proof Hfol as [[Hg [Hr [Hd Hw]]] [Hc [He Hb]]].
+    unfold item_step. destruct it as [g0|n|h|q z]; cbn [item_text item_loc item_pats item_ends_word item_bare acc_add WfItem] in *.
     - (* global *)
       destruct Hwf as [Hn Hqz]. normE E. rewrite add_pats_nil.
       rewrite (if_ok_bind_err _ _ _ _ s _ (consume_token_fail t_attribute s ltac:(rewrite E; reflexivity))).
@@ -1310,7 +1345,7 @@ Section RTS.
       destruct Hwf as [Hn [Hv [Hne Hattrs]]]. normE E. rewrite add_pats_nil. unfold bind at 1. unfold if_ok at 1.
       rewrite (consume_token_ok t_attribute s _ E).
       rewrite <- (st_after_nil' s _ E) at 1. rewrite st_after_app. step_ws E HF. unfold bind at 1.
-      rewrite (parse_shorthand_ok h L _ g r Hn Hv Hne Hattrs HL) by (try (destruct Hfol as [K1 [K2 K3]]; split; [split; assumption | assumption]); try reflexivity; lensolve E HF).
+      rewrite (parse_shorthand_ok h L _ g r Hn Hv Hne Hattrs HL) by (try (destruct Hfol as [K1 [K2 [K3 _]]]; split; [split; assumption | assumption]); try reflexivity; lensolve E HF).
       unfold ret at 1. step_ws E HF. unfold ret. fin.
     - (* stanza *)
       destruct Hwf as [[Hqs [Hq1 [Hq2 [Hq3 [Hq4 Hq5]]]]] Hstmts]. destruct Hq as [n [Hx Hn]].
@@ -1338,28 +1373,37 @@ Section RTS.
   (* the first character of an item *)
   Lemma item_text_head it L r : WfItem X tbl it -> exists c t,
     item_text tbl L it ++ r = c :: t /\ no_gap_start X (c :: t) /\ c <> 61 /\ c <> 44 /\ c <> 46 /\
-    (item_starts_word X it = false -> is_ident X c = false).
+    (item_starts_word X it = false -> is_ident X c = false) /\
+    (item_starts_quant it = false -> quant_char c = false).
   Proof.
-    intros Hwf. destruct it as [g0|n|h|q z]; cbn [item_text item_starts_word];
+    intros Hwf. destruct it as [g0|n|h|q z]; cbn [item_text item_starts_word item_starts_quant];
       try (eexists; eexists; split; [reflexivity|]; repeat split; try discriminate; try reflexivity).
     destruct Hwf as [[_ [_ [_ [_ [Hng Hc]]]]] _]. destruct q as [|c q].
     - cbn [app] in *. unfold block_text. cbn [app]. eexists; eexists; split; [reflexivity|]. repeat split; try discriminate; reflexivity.
     - cbn [app] in *. exists c. eexists. split; [reflexivity|]. destruct Hc as [H1 [H2 H3]]. destruct Hng as [Hg1 Hg2].
-      repeat split; try assumption. auto.
+      repeat split; try assumption; auto.
   Qed.
 
-  Lemma items_text_follow L i l ends_w g0 : Forall (WfItem X tbl) l -> WfGap X g0 ->
-    item_follow ends_w (sep ends_w (match l with it2 :: _ => item_starts_word X it2 | [] => false end) g0)
-      (items_text tbl X L i l).
+  Lemma item_bare_ends_word L it : item_bare it = true -> item_ends_word L it = true.
+  Proof. destruct it; cbn [item_bare item_ends_word]; congruence. Qed.
+
+  (* what follows item it0 (written under L0) and its gap when the items l come next *)
+  Lemma items_text_follow L0 it0 L i l g0 : Forall (WfItem X tbl) l -> WfGap X g0 ->
+    item_follow (item_ends_word L0 it0) (item_bare it0)
+      (sep (item_ends_word L0 it0) (next_clash X it0 l) g0) (items_text tbl X L i l).
   Proof.
-    intros Hwf Hg. destruct l as [|it l]; cbn [items_text].
+    intros Hwf Hg. destruct l as [|it l]; cbn [items_text next_clash].
     - repeat split; try exact I. + apply sep_wf; exact Hg.
       + intros ->. apply (sep_follow X Sane); [exact Hg | reflexivity | intros _; exact I].
+      + intros Hb. rewrite (item_bare_ends_word L0 it0 Hb). apply sep_no_quant; [exact Hg | intros _; exact I].
     - inversion Hwf as [|? ? Hit _]; subst. repeat rewrite <- app_assoc.
-      destruct (item_text_head it (sub L (2 * i)) (Gs L (2 * i + 1) (item_ends_word (sub L (2 * i)) it) (match l with it2 :: _ => item_starts_word X it2 | [] => false end) ++ items_text tbl X L (S i) l) Hit)
-        as [c [t [Ec [Hng [H61 [H44 [H46 Hsw]]]]]]]. rewrite Ec.
+      destruct (item_text_head it (sub L (2 * i)) (Gs L (2 * i + 1) (item_ends_word (sub L (2 * i)) it) (next_clash X it l) ++ items_text tbl X L (S i) l) Hit)
+        as [c [t [Ec [Hng [H61 [H44 [H46 [Hsw Hsq]]]]]]]]. rewrite Ec.
       repeat split; try assumption. + apply sep_wf; exact Hg. + apply Hng. + apply Hng.
-      + intros ->. apply (sep_follow X Sane); [exact Hg | reflexivity | exact Hsw].
+      + intros ->. apply (sep_follow X Sane); [exact Hg | reflexivity |].
+        intros Hnc. apply orb_false_iff in Hnc. apply Hsw. apply Hnc.
+      + intros Hb. rewrite (item_bare_ends_word L0 it0 Hb). apply sep_no_quant; [exact Hg|].
+        intros Hnc. apply orb_false_iff in Hnc. destruct Hnc as [_ Hnc]. rewrite Hb in Hnc. apply Hsq. exact Hnc.
   Qed.
 
   Lemma file_loop_ok l : forall L i a s k, Forall (WfItem X tbl) l -> WfLayout X L ->
@@ -1373,7 +1417,7 @@ Section RTS.
       cbn [file_loop items_text items_loc map concat] in *.
     - rewrite E. rewrite add_pats_nil, st_after_nil' by exact E. reflexivity.
     - inversion Hwf as [|? ? Hit Hl]; subst. destruct Hq as [Hqi Hql].
-      set (gp := sep (item_ends_word (sub L (2 * i)) it) (match l with it2 :: _ => item_starts_word X it2 | [] => false end) (l_gap L [(2 * i + 1)%nat])) in *.
+      set (gp := sep (item_ends_word (sub L (2 * i)) it) (next_clash X it l) (l_gap L [(2 * i + 1)%nat])) in *.
       assert (E1 : p_rest s = item_text tbl (sub L (2 * i)) it ++ render_gap gp ++ items_text tbl X L (S i) l) by (rewrite E; reflexivity).
       destruct (item_text_head it (sub L (2 * i)) (render_gap gp ++ items_text tbl X L (S i) l) Hit) as [c [t [Ec _]]].
       assert (Hlen1 : (1 <= length (item_text tbl (sub L (2 * i)) it))%nat).
@@ -1381,7 +1425,7 @@ Section RTS.
       rewrite E1, Ec.
       rewrite bind_ws_assoc. fold (item_step a). unfold bind at 1.
       rewrite (item_step_ok it (sub L (2 * i)) a s gp (items_text tbl X L (S i) l) Hit (WfLayout_sub X L (2 * i) HL)
-                 (items_text_follow L (S i) l _ _ Hl (WfLayout_gap X L (2 * i + 1) HL)))
+                 (items_text_follow (sub L (2 * i)) it L (S i) l _ Hl (WfLayout_gap X L (2 * i + 1) HL)))
         by (try exact E1; try exact HF; destruct it; try exact I; exact Hqi).
       to_base.
       rewrite (IH L (S i) _ _ k Hl HL) by (first [ exact Hql | reflexivity | (rewrite len_st_after; unfold len in *; rewrite Ec in E1; apply (f_equal (@length N)) in Ec; rewrite E1 in Hk, HF; repeat (rewrite app_length in * || cbn [length] in * ); lia) ]).
@@ -1412,7 +1456,7 @@ Section RTS.
   Proof.
     intros Hwf HL Hq Hm E HF. unfold file_text in *. unfold parse_into_file. start E.
     assert (Hng : no_gap_start X (items_text tbl X (sub L 1) 0 items)).
-    { destruct (items_text_follow (sub L 1) 0 items false [] Hwf ltac:(constructor)) as [[_ [H _]] _]. exact H. }
+    { destruct (items_text_follow L (IInherit []) (sub L 1) 0 items [] Hwf ltac:(constructor)) as [[_ [H _]] _]. exact H. }
     step_ws E HF. unfold bind at 1.
     rewrite (file_loop_ok items (sub L 1) 0 _ _ F Hwf) by (first [ wflay | exact Hq | reflexivity | lensolve E HF ]).
     rewrite p_loc_st_after, p_pats_st_after.
